@@ -2,12 +2,16 @@
 
 Theorems (coq/Props/C17.v) are about the Gallina state machine coq/theories/Tab/Lifecycle.v.  This
 driver ties it to /repo on every run: random interleavings of step / finish / build / setters /
-build_trunk / rules.append on real tableaux (example arguments, several logics), step limits
+build_trunk / rules.append / hand-made branches (tab.branch() + one conjunction node whose properties
+are derived from the logic's Meta) on real tableaux (example arguments, several logics), step limits
 1..n+1, None, 0, -1 (n = the unlimited proof length, measured first), time limits None / 0 /
 negative / positive with a substituted build timer that reports a huge elapsed time at scripted
 consultations (and, separately, tiny real timeouts); the clock bits fed to the model are the ones
 the real timer reported.  After EVERY call the flags, len(history), valid / invalid, rules.locked,
-len(rules) and the exception type are compared with the model evaluated inside Coq.
+len(rules), len(open) == 0 and the exception type are compared with the model evaluated inside Coq.
+Per logic the probe measures what a hand-made branch supplies (c_h rule applications, stays open,
+two branches supply 2 c_h); logics where that fails (D: the Serial rule consults the tableau-wide
+history) get no hand_branch operations.
 """
 from __future__ import annotations
 
@@ -26,10 +30,12 @@ HEADER = ('From Coq Require Import List Bool Arith ZArith.\n'
           'Import ListNotations.\nOpen Scope Z_scope.\n')
 
 THEOREMS = ['C17_steps_bounded', 'C17_limit_premature_steps', 'C17_limit_premature_time',
-            'C17_premature_no_verdict', 'C17_big_limit_noop', 'C17_nonpositive_limit_unlimited',
-            'C17_timeout_finishes', 'C17_finished_idempotent', 'C17_setters_locked',
+            'C17_premature_no_verdict', 'C17_big_limit_noop_run', 'C17_big_limit_noop', 'C17_big_limit_noop_no_hand',
+            'C17_nonpositive_limit_unlimited',
+            'C17_timeout_finishes', 'C17_finished_idempotent', 'C17_setters_locked', 'C17_started_without_trunk',
             'C17_no_argument_no_verdict', 'C17_build_is_step_loop', 'C17_build_total',
-            'C17_verdict_needs_trunk_refuted', 'C17_finished_locked_refuted',
+            'C17_verdict_needs_trunk_refuted', 'C17_hand_started_verdict_without_trunk_refuted',
+            'C17_hand_branch_flips_verdict', 'C17_finished_locked_refuted',
             'C17_verdict_needs_trunk_if_flag', 'C17_finished_locks_setters_if_flag']
 
 QUICK_LOGICS = ['CPL', 'CFOL', 'K', 'FDE', 'S4', 'K3', 'D', 'LP']
@@ -52,10 +58,15 @@ def coq_optz(x) -> str:
 
 
 FLAGS = dict(fin_lock=False, trunk_verdict=False)      # probed per run (probe_lifecycle.py)
+import collections
+PAIRS = collections.Counter()                          # (logic, argument) pairs: hand_branch operations usable?
+PAIRS_SKIPPED: list = []
+HAND: dict = {}                                        # logic -> what one / two hand-made branches supply (measured per run)
 
 
-def coq_cfg(n, closes, nrules, opts) -> str:
-    return (f'(mkCfg {n}%nat {coq_bool(closes)} {nrules}%nat {coq_bool(opts.get("auto_build_trunk", True))} '
+def coq_cfg(rec, opts) -> str:
+    n, closes, nrules, h = rec['n'], rec['closes'], rec['nrules'], rec.get('h') or 0
+    return (f'(mkCfg {n}%nat {coq_bool(closes)} {h}%nat {nrules}%nat {coq_bool(opts.get("auto_build_trunk", True))} '
             f'{coq_bool(opts.get("is_build_models", False))} {coq_optz(opts.get("max_steps"))} '
             f'{coq_optz(opts.get("build_timeout"))} {coq_bool(FLAGS["fin_lock"])} {coq_bool(FLAGS["trunk_verdict"])})')
 
@@ -74,7 +85,8 @@ def model_op(op, tr) -> str:
     if kind == 'build':
         k = next((i for i, b in enumerate(stepc) if b), None)
         return f'Build {"None" if k is None else f"(Some {k}%nat)"} {b2}'
-    return {'set_argument': 'SetArgument', 'set_logic': 'SetLogic', 'build_trunk': 'BuildTrunk', 'add_rule': 'AddRule'}[kind]
+    return {'set_argument': 'SetArgument', 'set_logic': 'SetLogic', 'build_trunk': 'BuildTrunk', 'add_rule': 'AddRule',
+            'hand_branch': 'HandBranch'}[kind]
 
 
 def parse_coq(ans: str):
@@ -88,7 +100,7 @@ def parse_coq(ans: str):
 
 
 def canon_model(t):
-    # (res, prem, fin, to, trunk, started, valid, invalid, locked, hist, nrules): Coq prints nested pairs flat-left
+    # (res, prem, fin, to, trunk, started, valid, invalid, locked, hist, nrules, open_zero): Coq prints nested pairs flat-left
     flat = []
 
     def walk(x):
@@ -104,16 +116,16 @@ def canon_model(t):
 def canon_impl(tr):
     o = tr['obs']
     return [RES.get(tr['res'], tr['res']), o['PREMATURE'], o['FINISHED'], o['TIMED_OUT'], o['TRUNK_BUILT'], o['STARTED'],
-            o['valid'], o['invalid'], o['locked'], o['hist'], o['nrules']]
+            o['valid'], o['invalid'], o['locked'], o['hist'], o['nrules'], o['nopen'] == 0]
 
 
 FIELDS = ['result', 'PREMATURE', 'FINISHED', 'TIMED_OUT', 'TRUNK_BUILT', 'STARTED', 'valid', 'invalid',
-          'rules.locked', 'len(history)', 'len(rules)']
+          'rules.locked', 'len(history)', 'len(rules)', 'len(open)==0']
 
 
 # ---- case generation ---------------------------------------------------------------------------
 
-def rand_ops(rng: random.Random, n: int, opts: dict, maxlen: int):
+def rand_ops(rng: random.Random, n: int, opts: dict, maxlen: int, hand: bool = False):
     timed = opts.get('build_timeout') is not None and opts['build_timeout'] > 1
     models = bool(opts.get('is_build_models'))
 
@@ -132,7 +144,7 @@ def rand_ops(rng: random.Random, n: int, opts: dict, maxlen: int):
     ops = []
     start = ['set_logic', 'set_argument']
     rng.shuffle(start)
-    noise = ['add_rule', 'build_trunk', 'step', 'finish', 'build', 'set_logic', 'set_argument']
+    noise = ['add_rule', 'build_trunk', 'step', 'finish', 'build', 'set_logic', 'set_argument'] + ['hand_branch'] * hand
     for s in start:
         while rng.random() < 0.22:
             ops.append(one(rng.choice(noise)))
@@ -141,8 +153,43 @@ def rand_ops(rng: random.Random, n: int, opts: dict, maxlen: int):
         while rng.random() < 0.3:
             ops.append(one(rng.choice(['add_rule', 'step', 'set_logic', 'set_argument'])))
         ops.append(['build_trunk'])
-    body = ['step'] * 9 + ['build'] * 3 + ['finish', 'set_argument', 'set_logic', 'build_trunk', 'add_rule']
+    body = ['step'] * 9 + ['build'] * 3 + ['finish', 'set_argument', 'set_logic', 'build_trunk', 'add_rule'] + ['hand_branch'] * (2 * hand)
     for _ in range(rng.randint(1, maxlen)):
+        ops.append(one(rng.choice(body)))
+    return ops
+
+
+def hand_ops(rng: random.Random, n: int, opts: dict, maxlen: int):
+    """Tableaux started by hand: a logic (usually), hand-made branches, steps, then the setters / build_trunk."""
+    timed = opts.get('build_timeout') is not None and opts['build_timeout'] > 1
+    models = bool(opts.get('is_build_models'))
+
+    def fire(p):
+        return timed and rng.random() < p
+
+    def one(kind):
+        if kind == 'step':
+            return ['step', fire(0.1), fire(0.4) if models else False]
+        if kind == 'finish':
+            return ['finish', fire(0.4) if models else False]
+        if kind == 'build':
+            return ['build', rng.randint(0, n + 3) if fire(0.3) else None, fire(0.5) if models else False]
+        return [kind]
+    ops = []
+    r = rng.random()
+    if r < 0.75:
+        ops.append(['set_logic'])
+        if rng.random() < 0.3:
+            ops.append(['set_argument'])
+    elif r < 0.9:
+        ops.append(['set_argument'])
+    for _ in range(rng.randint(1, 3)):
+        ops.append(['hand_branch'])
+        while rng.random() < 0.45:
+            ops.append(one('step'))
+    body = ['step'] * 6 + ['build'] * 2 + ['set_argument'] * 4 + ['set_logic'] * 3 + ['build_trunk'] * 3 + \
+        ['finish', 'add_rule', 'hand_branch', 'hand_branch']
+    for _ in range(rng.randint(2, maxlen)):
         ops.append(one(rng.choice(body)))
     return ops
 
@@ -181,6 +228,13 @@ def make_cases(args, rng, meta):
         if m['measure_error'] or m['n'] is None or m['n'] > 90:
             continue
         n = m['n']
+        HAND.setdefault(l, m.get('hand') or {})
+        hand = bool(m.get('hand_ok'))
+        if (m.get('hand') or {}).get('ok'):
+            PAIRS['usable' if hand else 'trunk length depends on the node-hash order (skipped)'] += 1
+            if not hand:
+                PAIRS_SKIPPED.append([l, a, n, (m.get('hand_ctx') or {}).get('totals')])
+        h = m.get('h') or 0
         plain = [['set_logic'], ['set_argument'], ['build', None, False]]
         # every cut point of small proofs; a sample for longer ones
         lims = list(range(1, n + 2)) if n <= (6 if quick else 20) else sorted(set(
@@ -193,7 +247,32 @@ def make_cases(args, rng, meta):
                           ops=[['set_argument'], ['set_logic']] + [['step', False, False]] * (min(n, L) + 2) + [['finish', False]]))
         for _ in range(3 if quick else 10):
             o = rand_opts(rng, n)
-            cases.append(dict(logic=l, arg=a, opts=o, ops=rand_ops(rng, n, o, 12 if quick else 16), family='random'))
+            cases.append(dict(logic=l, arg=a, opts=o, ops=rand_ops(rng, n, o, 12 if quick else 16, hand), family='random'))
+        if not hand:
+            continue
+        # tableaux started by hand: every setter / build_trunk after the first rule application, with and
+        # without auto_build_trunk; the trunk after a hand-made branch; a branch on a finished tableau
+        S = ['step', False, False]
+        auto = rng.random() < 0.5
+        fixed = [
+            (dict(auto_build_trunk=auto), [['set_logic'], ['hand_branch'], S, ['set_argument'], ['set_logic'], ['build_trunk'],
+                                          ['add_rule'], ['build', None, False], ['set_argument'], ['finish', False]]),
+            (dict(auto_build_trunk=False), [['set_logic'], ['set_argument'], ['hand_branch'], S, ['build_trunk'], ['set_argument'],
+                                           ['build', None, False], ['build_trunk']]),
+            (dict(), [['hand_branch'], ['set_logic'], ['set_argument'], S, ['set_logic'], ['hand_branch'], ['build', None, False]]),
+            (dict(), [['set_logic'], ['hand_branch'], ['set_argument'], ['hand_branch'], ['build', None, False], ['hand_branch'], S]),
+        ]
+        for o, ops in ([fixed[rng.randrange(len(fixed))]] if quick else fixed):
+            cases.append(dict(logic=l, arg=a, opts=o, ops=ops, family='hand-fixed'))
+        # the step limit around the natural length c_n + 2 c_h of a proof with two hand-made branches
+        nat = n + 2 * h
+        sweep = sorted({1, nat - 1, nat, nat + 1} - {0}) if (n <= 6 or not quick) else [rng.choice([nat, nat + 1])]
+        for L in sweep:
+            cases.append(dict(logic=l, arg=a, opts=dict(max_steps=L), family='hand-limit',
+                              ops=[['set_logic'], ['hand_branch'], ['set_argument'], ['hand_branch'], ['build', None, False]]))
+        for _ in range(2 if quick else 8):
+            o = rand_opts(rng, n + 2 * h)
+            cases.append(dict(logic=l, arg=a, opts=o, ops=hand_ops(rng, n, o, 9 if quick else 14), family='hand-random'))
     return cases
 
 
@@ -242,9 +321,11 @@ def text_violation(case, rec, k):
     same = all(o[x] == prev[x] for x in keys)
     if prev['finished'] and op in ('step', 'finish', 'build') and (not same or tr['res'].startswith('err')):
         return 'Tableau.step/finished', f'{op}() on a finished tableau changed it or raised ({tr["res"]})'
-    if prev['STARTED'] and op in ('set_argument', 'set_logic', 'build_trunk', 'add_rule') and \
+    # "started": the flag, or what the flag stands for (the trunk is built / a rule has been applied)
+    if (prev['STARTED'] or prev['TRUNK_BUILT'] or prev['hist'] > 0) and op in ('set_argument', 'set_logic', 'build_trunk', 'add_rule') and \
             (tr['res'] != 'err:IllegalStateError' or not same):
-        return 'Tableau.setter/started', f'{op} on a started tableau: {tr["res"]}, state {"unchanged" if same else "changed"}'
+        how = 'a started tableau' if prev['STARTED'] else 'a tableau that has applied a rule / built its trunk but does not carry Flag.STARTED'
+        return 'Tableau.setter/started', f'{op} on {how}: {tr["res"]}, state {"unchanged" if same else "changed"}'
     if op in ('step', 'build') and not prev['finished'] and ms is not None and ms > 0 and prev['hist'] >= ms \
             and not any(c[2] for c in tr['consults']) and not (o['finished'] and o['premature'] and o['hist'] == prev['hist']):
         return 'Tableau.step/limit-premature', 'stopped by the step limit but not finished and premature'
@@ -262,7 +343,10 @@ def run(args) -> int:
                 'set_logic; set_argument; build; a step-by-step walk past the limit; random interleavings (<= 12 calls after the '
                 'setters, noise before them) of step/finish/build/set_argument/set_logic/build_trunk/rules.append under random '
                 'max_steps / build_timeout / is_build_models / auto_build_trunk with scripted and real clock readings; '
-                'every call compared; distinct = distinct (logic, argument, options, operations)')
+                'every call compared; where the logic\'s hand-made branches are independent (measured): hand_branch in those '
+                'interleavings, fixed hand-started sequences (every setter / build_trunk / rules.append after the first rule '
+                'application on a hand-made branch, trunk after a hand-made branch, branch on a finished tableau), a limit sweep '
+                'around c_n + 2 c_h, and hand-started random sequences; distinct = distinct (logic, argument, options, operations)')
     ensure_theory()
     chk.assumptions = props_assumptions('C17')
     chk.theorems = THEOREMS
@@ -286,10 +370,11 @@ def run(args) -> int:
             chk.count('skipped', rec.get('measure_error') or 'short trace')
             continue
         ops = '; '.join(model_op(op, tr) for op, tr in zip(case['ops'], rec['trace']))
-        exprs.append(f'otrace {coq_cfg(rec["n"], rec["closes"], rec["nrules"], case["opts"])} [{ops}]')
+        exprs.append(f'otrace {coq_cfg(rec, case["opts"])} [{ops}]')
         idx.append(i)
     answers = coq_eval_cases('C17', HEADER, exprs, shard=250, name='Life', timeout=900)
     ndiv = 0
+    div_keys = set()
     for i, ans in zip(idx, answers):
         case, rec = cases[i], recs[i]
         model = [canon_model(t) for t in parse_coq(ans)]
@@ -299,6 +384,15 @@ def run(args) -> int:
         chk.count('logic', case['logic'])
         for op in case['ops']:
             chk.count('op', op[0])
+        nh = sum(1 for op in case['ops'] if op[0] == 'hand_branch')
+        chk.count('hand_branches_per_sequence', str(min(nh, 4)) + ('+' if nh >= 4 else ''))
+        for k, tr in enumerate(rec['trace']):
+            prev = rec['trace'][k - 1]['obs'] if k else rec['init']
+            if prev['STARTED'] and not prev['TRUNK_BUILT']:
+                chk.count('call_on_hand_started_tableau', case['ops'][k][0])
+            if case['ops'][k][0] == 'hand_branch':
+                chk.count('hand_branch_on', 'finished' if prev['FINISHED'] else 'started' if prev['STARTED'] else
+                          'no logic' if not prev['has_logic'] else 'fresh')
         chk.count('max_steps', 'None' if case['opts'].get('max_steps') is None else
                   ('<=0' if case['opts']['max_steps'] <= 0 else ('<=n' if case['opts']['max_steps'] <= rec['n'] else '>n')))
         if any(c[2] for tr in rec['trace'] for c in tr['consults']):
@@ -313,65 +407,129 @@ def run(args) -> int:
         if not init_ok:
             chk.violation('Tableau.__init__/limit-flags', f'max_steps={ms} build_timeout={to}: HAS_STEP_LIMIT={rec["init"]["HAS_STEP_LIMIT"]} '
                           f'HAS_TIME_LIMIT={rec["init"]["HAS_TIME_LIMIT"]}', replay_dict(case, rec, 0, None), found_input=True)
+        # first call that violates the property text; first call where the model disagrees
+        kt = kd = None
         for k, (m, r) in enumerate(zip(model, impl)):
             o = rec['trace'][k]['obs']
             derived_ok = (o['finished'] == o['FINISHED'] and o['completed'] == (o['FINISHED'] and not o['PREMATURE'])
                           and o['premature'] == (o['FINISHED'] and o['PREMATURE']))
-            tv = text_violation(case, rec, k)
-            if m == r and derived_ok and tv is None:
-                continue
-            if tv is None and not confirmed(case):
-                # not reproducible in a fresh process (search order): counted, not reported
-                chk.count('unconfirmed_divergence', case['logic'])
+            if kd is None and not (m == r and derived_ok):
+                kd = k
+            if text_violation(case, rec, k) is not None:
+                kt = k
                 break
+        if kt is None and kd is None:
+            continue
+        if kt is not None:
+            tv = text_violation(case, rec, kt)
             ndiv += 1
-            if tv is not None:
-                chk.violation(tv[0], f'{case["logic"]} {case["arg"]} opts {case["opts"]}: call #{k} {case["ops"][k]}: {tv[1]}',
-                              replay_dict(case, rec, k, m), found_input=True)
-            else:
-                field = 'derived-properties' if m == r else next(FIELDS[j] for j in range(len(FIELDS)) if j >= len(m) or m[j] != r[j])
-                chk.violation(f'lifecycle.model-divergence:{case["ops"][k][0]}:{field}',
-                              f'{case["logic"]} {case["arg"]} opts {case["opts"]}: call #{k} {case["ops"][k]}: implementation {r}, '
-                              f'verified model {m} (no violation of the property text on this input; the theorems no longer describe this code)',
-                              replay_dict(case, rec, k, m), found_input=False)
-            break
+            chk.violation(tv[0], f'{case["logic"]} {case["arg"]} opts {case["opts"]}: call #{kt} {case["ops"][kt]}: {tv[1]}',
+                          replay_dict(case, rec, kt, model[kt]), found_input=True)
+            continue
+        m, r = model[kd], impl[kd]
+        field = 'derived-properties' if m == r else next(FIELDS[j] for j in range(len(FIELDS)) if j >= len(m) or m[j] != r[j])
+        key = f'lifecycle.model-divergence:{case["ops"][kd][0]}:{field}'
+        if key in div_keys or len(div_keys) >= 8:
+            # same kind of disagreement as one already confirmed and reported (or too many kinds): counted only
+            ndiv += 1
+            chk.count('further_divergence', key if key in div_keys else 'other')
+            continue
+        if not confirmed(case):
+            # not reproducible in a fresh process / explained by the search order: counted, not reported
+            chk.count('unconfirmed_divergence', f'{case["logic"]}: {WHY_UNCONFIRMED[0]}')
+            continue
+        ndiv += 1
+        div_keys.add(key)
+        chk.violation(key, f'{case["logic"]} {case["arg"]} opts {case["opts"]}: call #{kd} {case["ops"][kd]}: implementation {r}, '
+                      f'verified model {m} (no violation of the property text on this input; the theorems no longer describe this code)',
+                      replay_dict(case, rec, kd, m), found_input=False)
     chk.obligation('life-cycle model = Tableau implementation on every call of every sequence', ndiv == 0, kind='X')
     chk.notes['diverging_sequences'] = ndiv
     chk.checker_cmd = 'coqc Props/C17.v (theorems, all operation sequences) + gen/C17/Life*.v (model by vm_compute) against tools/probe_lifecycle.py on /repo'
     chk.trusted += ['tools/c17.py: translation of operations, options and observations between the two sides',
                     'tools/probe_lifecycle.py: the substituted build timer (a StopWatch subclass that adds a scripted offset and logs every reading)']
     chk.notes['explanation'] = (
-        'obligations: Print Assumptions of the 16 theorems; the model agrees with the real Tableau after every call of every '
+        f'obligations: Print Assumptions of the {len(THEOREMS)} theorems; the model agrees with the real Tableau after every call of every '
         'generated sequence. The theorems hold for ALL operation sequences, proof lengths, limits and clock readings of the model.')
     chk.notes['modelled_not_verified'] = (
-        'the proof search is a counter (c_n applications available once the trunk is built): that the real search is '
-        'deterministic given the argument is assumed (node-hash counter reset per tableau) and re-measured per case; branches '
-        'added by hand, malformed arguments, tree/stats/model contents are not modelled')
+        'the proof search is a counter (c_n applications available once the trunk is built + c_h per hand-made branch of a '
+        'tableau with a logic): that the real search is deterministic given the argument is assumed (node-hash counter reset '
+        'per tableau) and re-measured per case; that branches do not influence each other\'s number of rule applications is '
+        'measured per logic (two hand-made branches supply 2 c_h) and re-checked by every sequence that mixes a trunk with '
+        'hand-made branches; hand-made branches with other contents, Tableau.branch(parent), malformed arguments, '
+        'tree/stats/model contents are not modelled')
+    chk.notes['hand_branch_pairs'] = dict(PAIRS)
+    chk.notes['hand_branch_pairs_skipped'] = PAIRS_SKIPPED[:40]
+    chk.notes['hand_branch_measure'] = {l: dict(h=v.get('h'), additive=v.get('ok'), error=v.get('error'),
+                                                steps_with_1_and_2_branches=[r['steps'] for r in v.get('runs') or []])
+                                        for l, v in sorted(HAND.items())}
     chk.notes['observations_outside_the_property_text'] = [] if (FLAGS['fin_lock'] and FLAGS['trunk_verdict']) else [
         "Tableau(None, 'b:a').build() (argument, no logic) and Tableau('CPL', 'b:a', auto_build_trunk=False).build() report "
         "valid=True without a trunk (C17_verdict_needs_trunk_refuted)",
         "t = Tableau('CPL'); t.build(); t.argument = 'a:a' is accepted on the finished tableau, builds a trunk and reports "
-        "invalid=True with an empty history (C17_finished_locked_refuted)"]
+        "invalid=True with an empty history (C17_finished_locked_refuted)",
+        "t = Tableau('CPL', 'Kab:a', auto_build_trunk=False); b = t.branch(); b.append(sdwnode(a & b)); t.step(); t.build(): "
+        "started by hand, build_trunk refused for ever, yet invalid=True is reported for the argument whose trunk was never built "
+        "(C17_hand_started_verdict_without_trunk_refuted)"]
+    chk.notes['observations_outside_the_property_text'] += [
+        "Tableau.branch() has no guard: t = Tableau('CPL', 'a:a').build() is valid; after t.branch() (+ any node) t.valid is False and "
+        "t.invalid is True while t.stats['result'] still says 'Valid' (C17_hand_branch_flips_verdict)",
+        "a hand-made branch on a tableau without a logic locks the rule set, so the logic setter raises IllegalStateError for ever",
+    ] + [f"logic {l}: hand-made branches are not independent (one supplies {v.get('h')} rule applications, two supply "
+         f"{[r['steps'] for r in v.get('runs') or []][1:]} under max_steps=60, rules {[r['rules'] for r in v.get('runs') or []][1:]}; "
+         f"{v.get('error') or ''}); no hand_branch operations generated for it"
+         for l, v in sorted(HAND.items()) if not v.get('ok')]
     return chk.finish()
 
 
+WHY_UNCONFIRMED = ['']
+
+
 def confirmed(case) -> bool:
-    """Re-execute one case alone in a fresh process; does it still disagree with the model?"""
+    """Re-execute one case alone in a fresh process; does it still disagree with the model?  A sequence with
+    hand-made branches whose only disagreement is the length of the trunk's proof is re-measured in its own
+    context (the search order depends on the node hashes, hence on how many nodes were made before the
+    trunk's): the same calls without limits and clock, then build(); if the model with THAT length agrees
+    on every call the case is counted as search-order-sensitive, not reported."""
+    WHY_UNCONFIRMED[0] = 'not reproducible in a fresh process'
     c = {k: v for k, v in case.items() if k != 'family'}
     rec = probe_json('probe_lifecycle.py', stdin=json.dumps(dict(cases=[c])))['cases'][0]
     if rec['measure_error'] or len(rec['trace']) != len(case['ops']):
         return True
     ops = '; '.join(model_op(op, tr) for op, tr in zip(case['ops'], rec['trace']))
-    ans = coq_eval_cases('C17', HEADER, [f'otrace {coq_cfg(rec["n"], rec["closes"], rec["nrules"], case["opts"])} [{ops}]'],
+    ans = coq_eval_cases('C17', HEADER, [f'otrace {coq_cfg(rec, case["opts"])} [{ops}]'],
                          name='Confirm')[0]
     model = [canon_model(t) for t in parse_coq(ans)]
     impl = [canon_impl(tr) for tr in rec['trace']]
-    return model != impl
+    if model == impl:
+        return False
+    nh = sum(1 for op in case['ops'] if op[0] == 'hand_branch')
+    if not nh or not rec.get('h'):
+        return True
+    plain = [[op[0]] + [None if op[0] == 'build' and i == 1 else False for i in range(1, len(op))] for op in case['ops']]
+    o2 = {k: v for k, v in case['opts'].items() if k not in ('max_steps', 'build_timeout')}
+    c2 = dict(logic=case['logic'], arg=case['arg'], opts=o2, ops=plain + [['build', None, False]])
+    rec2 = probe_json('probe_lifecycle.py', stdin=json.dumps(dict(cases=[c2])))['cases'][0]
+    if rec2['measure_error'] or len(rec2['trace']) != len(c2['ops']):
+        return True
+    last = rec2['trace'][-1]['obs']
+    if not (last['TRUNK_BUILT'] and last['has_logic'] and last['FINISHED'] and not last['PREMATURE']):
+        return True
+    hands = sum(1 for op, tr in zip(c2['ops'], rec2['trace']) if op[0] == 'hand_branch' and tr['res'] == 'ok')
+    n_ctx, closes_ctx = last['hist'] - rec['h'] * hands, last['nopen'] - hands == 0
+    if n_ctx < 0 or (n_ctx, closes_ctx) == (rec['n'], rec['closes']):
+        return True
+    ans = coq_eval_cases('C17', HEADER, [f'otrace {coq_cfg(dict(rec, n=n_ctx, closes=closes_ctx), case["opts"])} [{ops}]'],
+                         name='Confirm')[0]
+    if [canon_model(t) for t in parse_coq(ans)] == impl:
+        WHY_UNCONFIRMED[0] = 'trunk proof length depends on the node-hash order (agrees with the length measured in context)'
+        return False
+    return True
 
 
 def replay_dict(case, rec, k, model_row):
     return dict(kind='lifecycle', logic=case['logic'], argument=case['arg'], opts=case['opts'], ops=case['ops'][:k + 1],
-                n=rec['n'], closes=rec['closes'], nrules=rec['nrules'], call=k,
+                n=rec['n'], closes=rec['closes'], nrules=rec['nrules'], h=rec.get('h'), call=k,
                 observed=canon_impl(rec['trace'][k]), expected_model=model_row)
 
 
@@ -390,7 +548,7 @@ def replay(path: str) -> int:
         print(f'VIOLATION property=C17 replay={path}')
         return 1
     ops = '; '.join(model_op(op, tr) for op, tr in zip(case['ops'], rec['trace']))
-    ans = coq_eval_cases('C17', HEADER, [f'otrace {coq_cfg(rec["n"], rec["closes"], rec["nrules"], case["opts"])} [{ops}]'],
+    ans = coq_eval_cases('C17', HEADER, [f'otrace {coq_cfg(rec, case["opts"])} [{ops}]'],
                          name='Replay')[0]
     model = [canon_model(t) for t in parse_coq(ans)]
     impl = [canon_impl(tr) for tr in rec['trace']]
@@ -399,6 +557,9 @@ def replay(path: str) -> int:
         tv = text_violation(case, rec, k)
         if m != r or tv is not None:
             print(f'replay: call #{k} {case["ops"][k]}: implementation {r}; model {m}; text: {tv}')
+            if tv is None and not confirmed(dict(case, family='replay')):
+                print(f'replay: the disagreement is not counted: {WHY_UNCONFIRMED[0]}')
+                return 0
             bad = True
             break
     if not bad:
